@@ -1,14 +1,14 @@
 """Seeded scenario generators for the `tree` model (C11, C12, C17)."""
-from harness.models.tree import SINGLETON_KINDS
+from harness.models.tree import SINGLETON_KINDS, ODD_EQ_KINDS
 
 IDENT = ['a', 'b', 'c', 'x', 'y', 'res1', '_p', 'class']
 OTHER = ['', 'a.b', '1x', 'x-y', '@', 'a b'.replace(' ', '+')]
 MANGLED = ['__x', '__a1']          # identifiers that Python mangles inside a class body
-FRESH_KINDS = ['list', 'dict', 'obj', 'evil']
+FRESH_KINDS = ['list', 'dict', 'obj'] + ODD_EQ_KINDS
 
 
 class Gen:
-    def __init__(self, rng, names=None, nmaps=None, nhandles=None, alias_p=0.12):
+    def __init__(self, rng, names=None, nmaps=None, nhandles=None, alias_p=0.12, odd_p=0.5):
         self.rng = rng
         self.lines = []
         if names is None:
@@ -29,8 +29,14 @@ class Gen:
         singles = rng.sample(SINGLETON_KINDS, len(SINGLETON_KINDS))
         for m in self.maps:
             self.lines.append(f'newmap {m}')
-        for h in self.handles:
-            if singles and rng.random() < 0.6:
+        # at least one loaded value with odd equality (== True for everything, raising __eq__/__bool__,
+        # equal-but-not-identical twins, duck-typed equality) in most scenarios
+        odd = rng.randrange(len(self.handles)) if self.handles and rng.random() < odd_p else -1
+        self.odd = self.handles[odd] if odd >= 0 else None
+        for i, h in enumerate(self.handles):
+            if i == odd:
+                kind = rng.choice(ODD_EQ_KINDS)
+            elif singles and rng.random() < 0.5:
                 kind = singles.pop()
             else:
                 kind = rng.choice(FRESH_KINDS)
@@ -163,14 +169,37 @@ def gen_c11(rng, fresh_only=False):
 
 
 def gen_c12(rng):
-    g = Gen(rng, nhandles=rng.randint(1, 6), alias_p=0.1)
+    g = Gen(rng, nhandles=rng.randint(1, 6), alias_p=0.1, odd_p=0.85)
     for _ in range(rng.randint(1, 6)):
         g.op_set(v=g.value(map_p=0.1))
     if rng.random() < 0.4:
         g.op_layer()
         g.op_set()
+    # the handle with the odd value sits at a known key, below the root of the first snapshot
+    odd_path = None
+    if g.odd is not None and g.odd in g.unused_h:
+        g.unused_h.remove(g.odd)
+        odd_path = g.path(3)
+        g.op_set(root=g.maps[0], p=odd_path, v=g.odd)
     for _ in range(rng.randint(0, 2)):
         g.op_snap()
+    if odd_path is not None:
+        snap = g.op_snap(g.maps[0])
+
+        def all_paths():
+            acc = [f'call {g.odd}', f'getitem {g.maps[0]} {g.tok(odd_path)}', f'chain {g.maps[0]} {g.tok(odd_path)}',
+                   f'sgetitem {snap} {g.tok(odd_path)}', f'sgetattr {snap} {g.tok(odd_path)}']
+            rng.shuffle(acc)
+            g.emit(f'cached {g.odd}')
+            for a in acc:
+                g.emit(a)
+                if rng.random() < 0.4:
+                    g.emit(f'stat {g.odd}')
+            g.emit(f'cached {g.odd}')
+            g.emit(f'stat {g.odd}')
+        all_paths()
+        g.emit(f'hclear {g.odd}')
+        all_paths()
     for _ in range(rng.randint(3, 30)):
         r = rng.random()
         if r < 0.22:
@@ -201,7 +230,7 @@ def gen_c17(rng):
     k = rng.choice([2, 3, 3, 4])
     r = rng.random()
     pool = IDENT if r < 0.35 else IDENT + OTHER if r < 0.8 else IDENT + OTHER + MANGLED
-    g = Gen(rng, names=rng.sample(pool, k), alias_p=0.05)
+    g = Gen(rng, names=rng.sample(pool, k), alias_p=0.05, odd_p=0.7)
     for _ in range(rng.randint(1, 9)):
         r = rng.random()
         if r < 0.8:
